@@ -91,7 +91,7 @@ def main():
     proved = R.proof_step()
     names = sorted(NAME_KIND) + LOOKALIKES
     users = []
-    nuser = 200 if R.thorough else 40
+    nuser = 1500 if R.thorough else 40
     for i in range(nuser):
         pats = []
         for _ in range(R.rng.choice([1, 1, 2, 3])):
